@@ -65,15 +65,53 @@ theorem filter_spec {self : Ops} (hs : SelfOk self) (cs : List Con) (wf : ∀ c 
 
 /-! ### invariant -/
 
-structure CLInv (G : List Con → List Nat → List Nat → Prop) (U : List Con) (s : St) : Prop where
+/-- what a query may do to the state: the frontend record changes in `_tls.solver` / `_to_add` only; no Z3 object disappears;
+the solver reference stays or points to an object created in between; every object that existed keeps its assertion frames,
+except the frontend's own solver object while the frontend is not finalized (nobody else refers to that one) -/
+structure QStep (s s' : St) : Prop where
+  fe : ∃ sol ta, s'.fe = { s.fe with solver := sol, toAdd := ta }
+  grow : s.objs.length ≤ s'.objs.length
+  solverNew : s'.fe.solver = s.fe.solver ∨ ∃ r, s'.fe.solver = some r ∧ s.objs.length ≤ r
+  foreign : ∀ i, i < s.objs.length → (s.fe.solver = some i → s.fe.finalized = true) →
+    (objAt s' i).frames = (objAt s i).frames
+  reuse : s'.reuse = s.reuse
+
+theorem QStep.refl (s : St) : QStep s s :=
+  ⟨⟨s.fe.solver, s.fe.toAdd, rfl⟩, Nat.le_refl _, Or.inl rfl, fun _ _ _ => rfl, rfl⟩
+
+theorem QStep.finalized {s s' : St} (h : QStep s s') : s'.fe.finalized = s.fe.finalized := by
+  obtain ⟨sol, ta, hfe⟩ := h.fe
+  rw [hfe]
+
+theorem QStep.trans {s s' s'' : St} (h1 : QStep s s') (h2 : QStep s' s'') : QStep s s'' := by
+  refine ⟨?_, Nat.le_trans h1.grow h2.grow, ?_, ?_, h2.reuse.trans h1.reuse⟩
+  · obtain ⟨sol1, ta1, e1⟩ := h1.fe
+    obtain ⟨sol2, ta2, e2⟩ := h2.fe
+    exact ⟨sol2, ta2, by rw [e2, e1]⟩
+  · rcases h2.solverNew with e | ⟨r, hr, hge⟩
+    · rw [e]; exact h1.solverNew
+    · exact Or.inr ⟨r, hr, Nat.le_trans h1.grow hge⟩
+  · intro i hi hp
+    have hi' : i < s'.objs.length := Nat.lt_of_lt_of_le hi h1.grow
+    have hp' : s'.fe.solver = some i → s'.fe.finalized = true := by
+      intro hs'
+      rw [h1.finalized]
+      rcases h1.solverNew with e | ⟨r, hr, hge⟩
+      · exact hp (e ▸ hs')
+      · rw [hr] at hs'
+        have : r = i := by simpa using hs'
+        omega
+    rw [h2.foreign i hi' hp', h1.foreign i hi hp]
+
+structure CLInv (G : St → Prop) (U : List Con) (s : St) : Prop where
   core : CoreInv s
   /-- the constraints held mean what the user's constraints mean -/
   equiv : ∀ a, holdsAll s.fe.constraints a = holdsAll U a
-  /-- any property of the fields the queries do not write (constraints, `_constraint_hashes`,
-  `constraints_wo_annotations`) is carried along; the deduplication invariant is passed here -/
-  ghost : G s.fe.constraints s.fe.hashes s.fe.woAnnot
+  /-- the state was reached by query steps from a state with property `G` (the deduplication invariant, and the
+  starting point when several frontends share Z3 objects, are passed here) -/
+  ghost : ∃ s0, G s0 ∧ QStep s0 s
 
-variable {G : List Con → List Nat → List Nat → Prop}
+variable {G : St → Prop}
 
 theorem holdsAll_append (A B : List Con) (a : Asg) : holdsAll (A ++ B) a = (holdsAll A a && holdsAll B a) := by
   simp [holdsAll, List.all_append]
@@ -103,11 +141,37 @@ theorem coreInv_after_query {s s1 s2 : St} {r : Nat} (h : CoreInv s) (hg : GotSo
   · rw [hst.reuse, hg.reuse]; exact h.noReuse
   · rw [hfe, hfe1]; exact h.untracked
 
+theorem objAt_eq_of_getElem? {s s' : St} {i : Nat} (h : s'.objs[i]? = s.objs[i]?) : objAt s' i = objAt s i := by
+  simp only [objAt, List.getD_eq_getElem?_getD, h]
+
+/-- `_get_solver` followed by a balanced L1 query is a query step -/
+theorem qstep_after_query {s s1 s2 : St} {r : Nat} (hg : GotSolver s s1 r)
+    (hst : L1Step r (fun fe => fe = s1.fe) s1 s2) (hfr : (objAt s2 r).frames = (objAt s1 r).frames) : QStep s s2 := by
+  have hfe : s2.fe = { s.fe with solver := some r, toAdd := [] } := (hst.fe rfl).trans hg.fe
+  refine ⟨⟨some r, [], hfe⟩, by rw [hst.len]; exact hg.grow, ?_, ?_, by rw [hst.reuse, hg.reuse]⟩
+  · rw [hfe]
+    rcases hg.fresh_or_same with ⟨h1, _⟩ | h2 | ⟨h3, _, _⟩
+    · exact Or.inl h1.symm
+    · exact Or.inr ⟨r, rfl, h2⟩
+    · exact Or.inl h3.symm
+  · intro i hi hp
+    by_cases hir : i = r
+    · subst hir
+      rcases hg.fresh_or_same with ⟨h1, hf⟩ | h2 | ⟨_, _, h3⟩
+      · have := hp h1; rw [hf] at this; cases this
+      · omega
+      · rw [hfr]
+        have : objAt s1 i = objAt s i := by simp only [objAt, h3]
+        rw [this]
+    · have e1 : s2.objs[i]? = s1.objs[i]? := hst.other i hir
+      have e2 : s1.objs[i]? = s.objs[i]? := hg.others i hi hir
+      rw [objAt_eq_of_getElem? (e1.trans e2)]
+
 theorem clInv_after_query {U : List Con} {s s1 s2 : St} {r : Nat} (h : CLInv G U s) (hg : GotSolver s s1 r)
     (hst : L1Step r (fun fe => fe = s1.fe) s1 s2) (hfr : (objAt s2 r).frames = (objAt s1 r).frames) : CLInv G U s2 := by
   obtain ⟨hc, hcons⟩ := coreInv_after_query h.core hg hst hfr
-  have hfe : s2.fe = { s.fe with solver := some r, toAdd := [] } := (hst.fe rfl).trans hg.fe
-  exact ⟨hc, fun a => by rw [hcons]; exact h.equiv a, by rw [hfe]; exact h.ghost⟩
+  obtain ⟨s0, hg0, hq⟩ := h.ghost
+  exact ⟨hc, fun a => by rw [hcons]; exact h.equiv a, ⟨s0, hg0, hq.trans (qstep_after_query hg hst hfr)⟩⟩
 
 /-- what the Z3 object asserts together with converted extra constraints, in terms of the user's constraints -/
 theorem satBy_query {U : List Con} {s s1 : St} {r : Nat} (h : CLInv G U s) (hg : GotSolver s s1 r) (ec : List Con) (a : Asg) :
